@@ -62,7 +62,7 @@ struct Run
   // consumer state
   uint64_t expected{0}, R{0}, pending_commit{0};
   std::vector<Switch> c_switches;
-  uint64_t recheck_hits{0}, old_empty_windows{0}, idle_after_done{0}, empties{0};
+  uint64_t recheck_hits{0}, old_empty_windows{0}, idle_after_done{0}, empties{0}, empty_checks{0};
   // inject-mode stats
   uint64_t injected_p{0}, injected_c{0}, quiescent_probes{0};
 
@@ -247,6 +247,18 @@ struct Run
   {
     tl_next_seen = false;
     tl_old_empty_seen = false;
+    if (inject && tl_inject_depth == 0)
+    {
+      // single-threaded mode is exact: empty() (consumer side API, used by the backend to decide that a queue is
+      // drained) must not report true while committed records are unconsumed, in whichever node they are
+      uint64_t const committed = seq - uncommitted;
+      ++empty_checks;
+      if (q->empty() && expected < committed)
+      {
+        fail("C02", "empty-reports-true-with-committed-records-pending", J{}.unum("consumed", expected).unum("committed", committed).unum("switches_seen", c_switches.size()).unum("producer_capacity", q->producer_capacity()).unum("consumer_capacity", q->capacity()));
+        return false;
+      }
+    }
     quill::detail::UnboundedSPSCQueue::ReadResult rr{nullptr};
     {
       ArmAlloc arm;
@@ -579,6 +591,7 @@ void run_cfg(Cfg const& c, bool inject)
   g_stats.add("injected_producer_steps", run.injected_p);
   g_stats.add("injected_consumer_steps", run.injected_c);
   g_stats.add("c09_quiescent_probes", run.quiescent_probes);
+  g_stats.add("empty_api_consistency_checks", run.empty_checks);
   g_stats.add("queue_mappings_created", mt.mmaps);
   g_stats.add("queue_mappings_destroyed", mt.munmaps);
   g_stats.mx("max_mapping_len", static_cast<long long>(mt.max_len));
